@@ -465,9 +465,9 @@ func c32ListClass(l []c32CPart, n int) string {
 // enumeration
 
 func c32BrokerModes(thorough bool) []string {
-	m := []string{"ok", "err:3", "err:6", "err:10", "close-on-accept", "close-after-read", "partial-frame", "negative-length", "garbage", "truncated", "empty-topics", "other-partition"}
+	m := []string{"ok", "err:3", "err:6", "err:10", "err:-1", "close-on-accept", "close-after-read", "partial-frame", "negative-length", "garbage", "truncated", "empty-topics", "other-partition"}
 	if thorough {
-		m = append(m, "err:1", "err:2", "err:5", "err:7", "err:19", "err:20", "err:29", "err:87", "err:-1", "other-topic")
+		m = append(m, "err:1", "err:2", "err:5", "err:7", "err:19", "err:20", "err:29", "err:87", "err:-32768", "err:32767", "other-topic")
 	}
 	return m
 }
